@@ -1,7 +1,7 @@
 (* C21 — Work limits are respected and every queued request eventually runs.
    Only statements; proofs are in GS.TaskQueueProofs. *)
 From Coq Require Import List NArith ZArith Bool Arith.
-From GS Require Import Base TaskQueue TaskQueueProofs TaskQueueLive.
+From GS Require Import Base TaskQueue TaskQueueProofs TaskQueueLive TaskQueueInv TaskQueueMon.
 Import ListNotations.
 Open Scope N_scope.
 
@@ -89,6 +89,35 @@ Print Assumptions C21_progress_partial.
 Theorem C21_root_is_eligible : forall maxpp a b, eligible maxpp a -> peer_cmp a b = false -> eligible maxpp b.
 Proof. exact top_eligible. Qed.
 Print Assumptions C21_root_is_eligible.
+
+(* C21_monitor: the executable monitor of the safety half — a request is handed to an executor only if it
+   is queued (pushed, not removed since, not started before for that push), never more than [w]
+   executions at once, never more than the per-peer maximum for one peer when set, a completion only
+   of something executing — accepts EVERY run of the model: all configurations, worker counts and label
+   sequences, whichever comparator-maximal tracker each pop is presented with.  This is the predicate the
+   driver evaluates on the implementation's histories (MON21). *)
+Theorem C21_monitor : forall cfg w ls s e,
+  run cfg (init w) ls = Some (s, e) -> monitor_C21 w (c_maxpp cfg) e = true.
+Proof. exact monitor_holds. Qed.
+Print Assumptions C21_monitor.
+
+(* The invariant it rests on, in every reachable state: inside one peer a topic is queued or active at
+   most once and task identities are unique and older than the next stamp; every executing worker
+   holds an active task of its peer; two workers never hold the same task; the active work of all
+   trackers together equals the number of executing workers; tracker keys are unique. *)
+Theorem C21_invariant : forall cfg w ls s e,
+  run cfg (init w) ls = Some (s, e) -> wf (st_trk s) (st_w s) (st_next s).
+Proof. intros cfg w ls s e H. exact (run_wf cfg ls _ _ _ (wf_init w) H). Qed.
+Print Assumptions C21_invariant.
+
+(* Conservation, per peer, in every reachable state: task objects created by pushes for the peer =
+   queued + active + completed + removed while queued. *)
+Theorem C21_conservation : forall cfg w ls s e,
+  run cfg (init w) ls = Some (s, e) ->
+  forall p, count_peer p (gh_created s) =
+    (length (pendT (st_trk s) p) + length (actT (st_trk s) p) + count_peer p (gh_done s) + count_peer p (gh_removed s))%nat.
+Proof. exact conservation. Qed.
+Print Assumptions C21_conservation.
 
 (* ---- non-vacuity ---- *)
 (* two workers, per-peer maximum 1: peer 1's second request waits for the first although a worker is
